@@ -13,7 +13,8 @@ CFG = dict(
           "and all handle/backpointer/heap-order invariants are checked. non-trivial = at least 3 distinct mechanisms "
           "observed in the case (see mechanisms_observed); distinct = distinct FNV fingerprints of (configuration, op stream)."),
     assumptions=["comparator is a total preorder on the key byte", "harness allocator never fails (library aborts on OOM)"],
-    min_counts={"any": {"remove_middle": 10, "handle_array_created_late": 10, "sliced_swap_item_gt_128": 10}},
+    min_counts={"any": {"remove_middle": 10, "handle_array_created_late": 10, "sliced_swap_item_gt_128": 10,
+                        "comparator_boolean_a_gt_b": 100, "comparator_INT_MIN_INT_MAX": 100}},
 )
 
 META = dict(
